@@ -42,6 +42,7 @@ var (
 	A, B, V1, V2, D = chainx.NewKey("c53-A"), chainx.NewKey("c53-B"), chainx.NewKey("c53-V1"), chainx.NewKey("c53-V2"), chainx.NewKey("c53-D")
 	r               *vk.Run
 	nApps           atomic.Int64
+	sampleSlots     [3]map[string]any
 )
 
 const work = "/verif/.work/c53"
@@ -343,7 +344,7 @@ func runDoc(n int, ids []int) {
 		}
 	}
 	if n < 3 {
-		r.Sample(map[string]any{"genesis": label, "result": obs[0].detail})
+		sampleSlots[n] = map[string]any{"genesis": label, "result": obs[0].detail}
 	}
 }
 
@@ -420,6 +421,11 @@ func main() {
 	}
 	r.Sample(map[string]any{"documents": len(docs), "components": len(comps)})
 	r.ParFor(len(docs), func(i int) { runDoc(i, docs[i]) })
+	for _, sl := range sampleSlots {
+		if sl != nil {
+			r.Sample(sl)
+		}
+	}
 	r.Assumptions = []string{
 		"each representation is driven through chainx.InitFromDoc, which mimics the node: GenesisDoc.ValidateAndComplete (state.MakeGenesisState), RequestInitChain built like consensus.Handshaker (InitialHeight, validators, consensus params, AppState from the document), first Commit",
 		"genesis txs are unsigned (gnoland.TestAppOptions: SkipGenesisSigVerification) and no validators are declared; the documents are written with GenesisDoc.SaveAs (amino JSON)",
